@@ -37,7 +37,7 @@ var c19Perturbs = []string{
 func genC19(t *rapid.T, tier string) C19Case {
 	c := C19Case{Cfg: core.GenConfig(t, tier, core.GenOpts{
 		Caches: []string{"none", "none", "big"}, Marshalers: []string{"json"},
-		Vals: []string{core.VInt, core.VString, core.VBytes},
+		Vals: []string{core.VInt, core.VString, core.VBytes, core.VLong},
 	})}
 	pool := len(c.Cfg.Pool())
 	c.Base = append(core.GenFill(t, pool, pool), core.GenProgram(t, pairBaseWeights, 10, 1)...)
